@@ -198,7 +198,27 @@ def h_crosshair(e, timeout, require_all):
     e.claim("canary:crosshair", len(confirmed) > 1000)
 
 
-HARNESSES = {"lru": h_lru, "lru_repr": h_lru_repr, "plru": h_plru, "crosshair": h_crosshair}
+def h_fill(e, repl, ways, kind, op):
+    """which block a fill displaces (CacheSet inside the real memory system, single set): from an
+    arbitrary set state (valid bits, tags, policy state symbolic) a miss places the block in the
+    way the policy names - whether or not another way is still empty -, every other way keeps
+    its block, and the policy is told about exactly that way (reference post-state of
+    checks/cachestep.py, the same VCs as C09 on this geometry)"""
+    from checks import cachestep
+
+    saved = e.claim
+
+    def relabel(label, c, info=None):
+        return saved(label.replace("C09:", "fill:"), c, info)
+
+    e.claim = relabel
+    try:
+        cachestep.h_step(e, kind, repl, 0, 0, ways, op, 4, op == "read", ["C09"])
+    finally:
+        e.claim = saved
+
+
+HARNESSES = {"lru": h_lru, "lru_repr": h_lru_repr, "plru": h_plru, "crosshair": h_crosshair, "fill": h_fill}
 
 
 def jobs(tier, seed):
@@ -210,6 +230,10 @@ def jobs(tier, seed):
     out.append({"label": "crosshair", "harness": "crosshair", "args": {"timeout": 20 if tier == "quick" else 60, "require_all": tier == "thorough"}, "cost": 1000, "validate": False})
     for n in [1, 2, 4, 8] + ([16] if tier == "thorough" else []):
         out.append({"label": "plru-%d" % n, "harness": "plru", "args": {"n": n}, "cost": n * n, "validate_every": 1 if n < 8 else 11})
+    for repl in ("lru", "plru"):
+        for ways in (2, 4):
+            for kind, op in (("wb", "read"), ("wb", "write"), ("wt", "read")):
+                out.append({"label": "fill-%s-%d-%s-%s" % (repl, ways, kind, op), "harness": "fill", "args": {"repl": repl, "ways": ways, "kind": kind, "op": op}, "cost": ways**3, "validate_every": 3, "timeout_ms": 20000})
     return out
 
 
